@@ -660,6 +660,16 @@ class CallMixin(object):
         o = args[0]
         if o.ty is EMPTY_LIST:
             return [(st, NONEV, recv)]
+        if isinstance(o.ty, Opt) and isinstance(o.ty.elem, List):
+            # extend(None) is a TypeError
+            if not self.in_spec:
+                bad, ok = self.fork(st, core.ois_none(o), getattr(node, "lineno", None), "none-extend")
+                if bad is not None:
+                    self.do_raise(bad, "TypeError")
+                if ok is None:
+                    return []
+                st = ok
+            o = core.oval(o)
         o = self.adapt(o, recv.ty) if o.ty is STATIC or isinstance(o.ty, Tup) else o
         if isinstance(o.ty, U):
             view = getattr(self.reg, "iter_views", {}).get(o.ty.name)
